@@ -126,6 +126,7 @@ class Sim:
         self.jobs = {j["name"]: j for j in scen["jobs"]}
         self.groups = {g["name"]: g for g in scen["groups"]}
         self.epoch = 0
+        self.epoch_transition = False
         self.attempt = {}  # job -> attempt number used for its exit code
         # boundary records
         self.launches = {}  # job -> [ {node, step, epoch, argv, env} ]
@@ -159,12 +160,17 @@ class Sim:
         self.lazy_ready_seen = 0
         self.lazy_justified = 0
         self.cancel_started = None
+        self.cancel_cmd_step = None
         self.cancel_ids_at_promotion = None
         self.cancel_pid = None
         self.rows_at_cancel = None
         self.canceled_visible_step = None
         self.holder = None  # (pid, host) of the process that the observations say holds the submitter role
         self.faults_injected = []
+        self.status_faults = []
+        self.frozen_finishes = False
+        self.early_resub = None
+        self.idle_resub_done = False
         self.fault_budget = (scen.get("faults") or {}).get("node_kill", 0)
         self.sub_ord = {}
         self.sub_steps = {}
@@ -173,6 +179,9 @@ class Sim:
         self.run_steps = {}
         self.run_classes = {}
         self.crash_done = False
+        self.cc_pid = None
+        self.cc_steps = 0
+        self.cmd_classes = []
         self.killnode_done = False
         self.poll_streak = 0
         self.time_jumps = 0
@@ -378,14 +387,14 @@ class Sim:
                 raise Inconclusive("settle timeout: " + str([(a.pid, a.role, a.state, a.blocked_on) for a in self.actors.values()]) + str(self.pending))
             self.pump(0.5)
 
-    def reply(self, a, **rep):
+    def reply(self, actor, **rep):
         rep.setdefault("a", "go")
         rep["off"] = self.vnow
-        a.state = "running"
-        a.msg = None
-        a.n += 1
+        actor.state = "running"
+        actor.msg = None
+        actor.n += 1
         try:
-            a.conn.send(json.dumps(rep).encode())
+            actor.conn.send(json.dumps(rep).encode())
         except OSError:
             pass
 
@@ -473,7 +482,7 @@ class Sim:
         st = [v[0] for v in o["jobs"].values()]
         nd = st.count("done")
         ns = st.count("submitted")
-        judge_consistency = self.ff or not self.faults_injected
+        judge_consistency = not self.status_faults
         if judge_consistency:
             if not (o["comp"] <= o["sub"] <= o["n"]):
                 V("counter-order", f"completed={o['comp']} submitted={o['sub']} total={o['n']}")
@@ -489,9 +498,13 @@ class Sim:
                     V("done-without-result", f"job {name} is done but has no recorded result")
                 if s != "not_submitted" and bb:
                     V("blockers-after-submit", f"job {name} is {s} but blocked_by={bb}")
+        if self.epoch_transition and o["why"].startswith("unlock") and not o["complete"]:
+            # first release of the cluster lock after resubmit-jobs reset the state: the new (re)submission is in place
+            self.epoch_transition = False
+            self.epoch_started_at = len(self.obs)
         if self.obs:
             p = self.obs[-1]
-            same_epoch = p.get("epoch", 0) == self.epoch
+            same_epoch = p.get("epoch", 0) == self.epoch and not self.epoch_transition and getattr(self, "epoch_started_at", 0) != len(self.obs)
             if same_epoch and judge_consistency:
                 if o["sub"] < p["sub"] or o["comp"] < p["comp"]:
                     V("counter-decreased", f"{p['sub']}/{p['comp']} -> {o['sub']}/{o['comp']}")
@@ -528,6 +541,8 @@ class Sim:
                     r = self.rounds[pid]
                     r["promoted"] = True
                     self.top_promoted.add(r.get("top"))
+                    if pid == self.cancel_pid and self.cancel_ids_at_promotion is None:
+                        self.cancel_ids_at_promotion = list(o["ids"])
                     r["ids0"] = list(o["ids"])
                     r["rows0"] = set(self._rows_on_disk())
                     r["canceled0"] = o["canceled"]
@@ -541,6 +556,8 @@ class Sim:
                 self.holder = None
                 self.log("DEMOTED", pid, host)
         # completion / cancel visibility
+        if self.epoch_transition:
+            return
         if o["complete"] and not (self.obs and self.obs[-1]["complete"] and self.obs[-1].get("epoch") == self.epoch):
             self.complete_seen += 1
             self.complete_epochs[self.epoch] = self.complete_epochs.get(self.epoch, 0) + 1
@@ -548,6 +565,8 @@ class Sim:
             self.on_complete_visible(o)
         if o["canceled"] and self.canceled_visible_step is None:
             self.canceled_visible_step = self.steps
+            self.cancel_unsubmitted = sum(1 for v in o["jobs"].values() if v[0] == "not_submitted")
+            self.cancel_active = len(self.cancel_ids_at_promotion or [])
             self.log("CANCELED_VISIBLE", o["why"])
 
     def on_complete_visible(self, o):
@@ -557,7 +576,7 @@ class Sim:
         w = [s for (s, e) in self.results_json_writes if e == self.epoch]
         if not w and self.scen.get("mode") != "local":
             self.viol("C05", "flag-before-summary", "completion flag visible but results.json was not written in this (re)submission")
-        if self.ff and not self.scen.get("cancel") and not self.scen.get("cycle"):
+        if self.ff and not self.scen.get("cancel") and not self.scen.get("cycle") and not self.faults_injected:
             rows = self.rows_on_disk()
             miss = [n for n in self.jobs if n not in rows]
             if miss and not self.rows_unknown:
@@ -566,6 +585,11 @@ class Sim:
             t = [h for h in self.hooks_seen if h["kind"] == "teardown" and h["epoch"] == self.epoch]
             if not t:
                 self.viol("C16", "teardown-missing-before-flag", "completion flag visible but teardown command has not run")
+
+    @property
+    def ff_now(self):
+        """Fault-free so far: no injected fault, no killed node (scancel kills included)."""
+        return self.ff and not self.status_faults and not self.faults_injected and not any(b.get("killed") for b in self.batches.values())
 
     def hooks_cfg(self):
         return self.scen.get("hooks") or {}
@@ -577,7 +601,7 @@ class Sim:
             pass
         else:
             self.refused_rounds += 1
-        if not r.get("promoted") or not self.ff or r["sb_fail"] or self.scen.get("mode") == "local" or self.scen.get("dry_run"):
+        if not r.get("promoted") or not self.ff_now or r["sb_fail"] or self.scen.get("mode") == "local" or self.scen.get("dry_run"):
             return
         if r["kind"] not in ("try-submit-jobs", "submit-jobs"):
             return
@@ -782,7 +806,7 @@ class Sim:
         msg = a.msg
         job = msg["env"].get("JADE_JOB_NAME")
         j = self.jobs[job]
-        rc = j["rc2"] if (self.epoch > 0 and self.resub and job in self.resub["selected"]) else j["rc"]
+        rc = j[self.resub.get("rc_key", "rc2")] if (self.epoch > 0 and self.resub and job in self.resub["selected"]) else j["rc"]
         self.finished.setdefault(job, []).append((rc, self.epoch))
         self.log("FINISH", job, rc)
         self.shared_event(a, "finish", job)
@@ -815,12 +839,15 @@ class Sim:
                 V("teardown-twice", f"teardown command ran {n} times in one (re)submission")
             if self.complete_epochs.get(self.epoch):
                 V("teardown-after-flag", "teardown command ran after the completion flag was set")
-            if self.ff and not self.scen.get("cancel") and not self.rows_unknown:
+            if self.ff and not self.scen.get("cancel") and not self.rows_unknown and not self.faults_injected and not self.scen.get("cycle"):
                 miss = [n_ for n_ in self.jobs if n_ not in rows]
                 if miss:
                     V("teardown-before-outcomes", f"teardown ran while jobs {miss} have no outcome")
         elif kind in ("nsetup", "nteardown"):
-            bjobs = self.batches.get(int(a.node), {}).get("jobs", []) if a.node and a.node.isdigit() else []
+            if a.node and a.node.isdigit():
+                bjobs = self.batches.get(int(a.node), {}).get("jobs", [])
+            else:  # local mode: the submitting process runs all jobs itself
+                bjobs = list(self.jobs)
             grp = self.jobs[bjobs[0]]["group"] if bjobs else None
             if rec["env"].get("JADE_SUBMISSION_GROUP") != grp:
                 V("node-hook-env", f"{kind} on node {a.node}: JADE_SUBMISSION_GROUP={rec['env'].get('JADE_SUBMISSION_GROUP')!r}, batch belongs to {grp}")
@@ -861,7 +888,9 @@ class Sim:
 
     def point_class(self, msg):
         ev = msg.get("ev") or msg["k"]
-        base = re.sub(r"\d+", "N", os.path.basename(msg.get("p", ""))) if msg.get("p") else ""
+        base = os.path.basename(msg.get("p", "")) if msg.get("p") else ""
+        base = re.sub(r"jade-[0-9a-f]{8}-[0-9a-f\-]+", "jade-UUID", base)
+        base = re.sub(r"\d+", "N", base)
         if msg["k"] == "popen":
             base = os.path.basename((msg.get("argv") or ["?"])[0])
         mode = msg.get("m")
@@ -892,6 +921,7 @@ class Sim:
                     kind = "die"
                 cls = self.point_class(msg)
                 self.faults_injected.append((kind, a.host, a.cmd[:40], cls, tgt[1]))
+                self.status_faults.append(kind)
                 self.log("FAULT", kind, a.host, a.cmd[:40], cls, "k", tgt[1])
                 self.rows_on_disk()
                 if a.pid in self.rounds:
@@ -914,7 +944,34 @@ class Sim:
                     kind = "die"
                 cls = self.point_class(msg)
                 self.faults_injected.append((kind, a.host, a.cmd[:40], cls, self.sub_steps[a.pid]))
+                self.status_faults.append(kind)
                 self.log("FAULT", kind, a.host, a.cmd[:40], cls)
+                self.rows_on_disk()
+                if a.pid in self.rounds:
+                    self.rounds[a.pid]["crashed"] = True
+                if kind == "die":
+                    self.reply(a, a="die")
+                elif kind == "torn":
+                    self.reply(a, a="torn")
+                else:
+                    self.reply(a, a="raise", errno=122)
+                return True
+        cc = f.get("crash_cmd")  # [substring of the command line, k, kind]: k-th scheduling point of the first such process
+        if cc and not self.crash_done and cc[0] in a.cmd and (self.cc_pid is None or self.cc_pid == a.pid):
+            self.cc_pid = a.pid
+            self.cc_steps += 1
+            if f.get("record_cmd_points"):
+                self.cmd_classes.append(self.point_class(msg))
+            if self.cc_steps == cc[1]:
+                self.crash_done = True
+                kind = cc[2]
+                iswrite = is_write_open(msg) or msg.get("ev") in ("os.rename", "os.remove", "os.mkdir")
+                if kind in ("raise", "torn") and not (is_write_open(msg) if kind == "torn" else iswrite):
+                    kind = "die"
+                cls = self.point_class(msg)
+                self.faults_injected.append((kind, a.host, a.cmd[:40], cls, cc[1]))
+                self.status_faults.append(kind)
+                self.log("FAULT", kind, a.host, a.cmd[:40], cls, "k", cc[1])
                 self.rows_on_disk()
                 if a.pid in self.rounds:
                     self.rounds[a.pid]["crashed"] = True
@@ -947,6 +1004,8 @@ class Sim:
             self.switches += 1
             self.last_actor = a
         k = msg["k"]
+        if not (k == "sleep" or (k == "io" and msg.get("ev") == "open" and msg.get("p", "").endswith(".lock")) or (k == "io" and msg.get("ev") == "os.mkdir" and os.path.isdir(msg.get("p", "")))):
+            self.poll_streak = 0  # something other than a lock poll happened
         if k == "hello":
             if a.node and a.node.isdigit() and int(a.node) in self.batches:
                 self.batches[int(a.node)]["seen"] = True
@@ -973,7 +1032,7 @@ class Sim:
             self.on_io(a, msg)
         elif k == "popen":
             pass
-        if self.verbose:
+        if self.verbose or self.scen.get("trace_ev"):
             self.log("EV", a.pid, a.host, msg.get("ev") or k, os.path.basename(msg.get("p", "")), msg.get("m"), msg.get("f"))
         self.reply(a)
 
@@ -1060,6 +1119,8 @@ class Sim:
         rj = [j for (j, n) in self.running_jobs.values() if n == str(bid)]
         self.log("KILL_NODE", bid, why, [(a.pid, a.role) for a in victims], "running jobs", rj)
         self.killed_jobs |= set(rj)
+        if any(a.role == "py" and "run-jobs" not in a.cmd for a in victims):
+            self.status_faults.append("node killed while it ran a submitter round")
         b["killed"] = True
         b["killed_step"] = self.steps
         for a in victims:
@@ -1104,6 +1165,8 @@ class Sim:
                     continue
                 w = 1.0
                 if a.msg["k"] == "jobrun":
+                    if self.frozen_finishes:
+                        continue
                     w = pol.get("finish_w", 0.5)
                 cands.append((w, "actor", a))
         for bid, b in self.batches.items():
@@ -1144,7 +1207,6 @@ class Sim:
                 else:
                     self.vnow = min(a.wake for a in sleepers)
                 continue
-            self.poll_streak = 0 if any(c[1] != "actor" or c[2].msg["k"] != "sleep" for c in cands) else self.poll_streak
             kind = pol.get("kind", "walk")
             if kind == "sticky" and self.last_actor is not None and self.rng.random() < pol.get("sticky", 0.5):
                 for c in cands:
@@ -1195,11 +1257,13 @@ class Sim:
             if c[1] == "actor":
                 self.step_actor(c[2])
             elif c[1] in ("kill", "faultkill"):
+                self.poll_streak = 0
                 if c[1] == "faultkill":
                     self.fault_budget -= 1
                     self.faults_injected.append(("node_kill", f"node{c[2]}", "random"))
                 self.kill_node(c[2], why=c[1])
             else:
+                self.poll_streak = 0
                 self.start_batch(c[2])
             self.user_actions(u)
 
@@ -1211,6 +1275,7 @@ class Sim:
             return
         if self.scen.get("cancel") and self.cancel_started is None and self.sbatches and self.rng.random() < self.scen["cancel"]:
             self.cancel_started = set(self.active_batches())
+            self.cancel_cmd_step = self.steps
             self.rows_at_cancel = self._rows_on_disk()
             self.log("CANCEL_CMD active", sorted(self.cancel_started))
             extra = [] if self.scen.get("cancel_complete", True) else ["--no-complete"]
@@ -1236,8 +1301,12 @@ class Sim:
                 # refused: another process held the role during this attempt; progress is that process's business
                 self.refused_recoveries += 1
                 self.recover_check = None
+                if self.idle():
+                    # refused although nobody is alive to finish a round: the role is held by a dead process
+                    self.stuck = True
+                    self.log("STUCK role held by a process that is gone", self.holder)
                 return
-            if not made and not done and self.ff:
+            if not made and not done and self.ff_now:
                 self.viol("C05", "recovery-no-progress", f"recovery round {rc[0]} (exit {self.top_rc[rc[0]]}) neither handed a batch to the HPC nor completed the submission")
             if not made and not done:
                 self.stuck = True
@@ -1266,7 +1335,7 @@ class Sim:
             return False
         bound = len(self.jobs) + len(self.batches) + 2
         if self.recoveries >= bound:
-            if self.ff:
+            if self.ff_now:
                 self.viol("C05", "recovery-bound", f"submission not complete after {self.recoveries} recovery rounds")
             self.stuck = True
             return False
@@ -1366,6 +1435,34 @@ class Sim:
             self.final_faulty(final, missing, complete)
         if final is not None and missing is not None:
             self.final_tally(final, missing)
+        self.final_hooks(complete)
+
+    def final_hooks(self, complete):
+        h = self.hooks_cfg()
+        if not any(h.get(k) for k in ("setup", "teardown", "nsetup", "nteardown")):
+            return
+        seen = self.hooks_seen
+        V = lambda key, text: self.viol("C16", key, text)
+        if h.get("setup"):
+            n = sum(1 for x in seen if x["kind"] == "setup")
+            if n != 1:
+                V("setup-count", f"setup command ran {n} times")
+        if h.get("teardown") and complete:
+            n = sum(1 for x in seen if x["kind"] == "teardown" and x["epoch"] == self.epoch)
+            if n != 1:
+                V("teardown-count", f"teardown command ran {n} times for one completion")
+        local = self.scen.get("mode") == "local"
+        nodes = [None] if local else [str(bid) for bid, b in self.batches.items() if b["state"] == "DONE" and b["seen"] and not b.get("killed") and not b.get("cancelled")]
+        for node in nodes:
+            for kind in ("nsetup", "nteardown"):
+                if h.get(kind):
+                    n = sum(1 for x in seen if x["kind"] == kind and x["node"] == node)
+                    if n != 1 and (complete or not local):
+                        V(f"{kind}-count", f"{kind} ran {n} times for the batch on node {node}")
+        if self.ff and self.cancel_started is None:
+            bad = [v for v in self.violations if (v["prop"], v["key"]) in (("C03", "no-result"), ("C03", "missing-jobs"), ("C05", "not-complete"), ("C03", "no-results-file"))]
+            if bad:
+                V("results-not-recorded", f"with lifecycle commands {sorted(k for k in h if h.get(k) and k != 'rc')} configured: {bad[0]['text']}")
 
     def final_tally(self, final, missing):
         s = getattr(self, "summary", None)
@@ -1435,6 +1532,20 @@ class Sim:
                         self.viol("C11", "result-lost", f"result of {name} ({rc},{st}) was on disk earlier and is gone")
                         break
         self.complete = complete
+        if not complete and not self.status_faults and self.scen.get("mode") != "local":
+            dead = []
+            live = {a.pid for a in self.actors.values()}
+            for lf in glob.glob(os.path.join(self.out, "results", "*.lock")) + glob.glob(os.path.join(self.out, "processed_results.csv.lock")):
+                try:
+                    first = open(lf).readline().strip()
+                    if first and int(first) not in live:
+                        dead.append(os.path.basename(lf))
+                except (OSError, ValueError):
+                    dead.append(os.path.basename(lf))
+            if dead:
+                self.viol("C12", "dead-node-results-lock", f"node killed while holding {dead}: the marker names a process on another host, nobody ever breaks it, every later collector times out and the submission never completes")
+            else:
+                self.viol("C12", "not-complete-after-faults", f"submission did not reach completion after {self.recoveries} documented recovery rounds (faults: {self.faults_injected[:3]})")
         if final is None:
             if complete:
                 self.viol("C12", "no-results-file", "submission complete but results.json missing")
@@ -1477,10 +1588,10 @@ class Sim:
             for name in self.rows_at_cancel:
                 if name not in rows:
                     self.viol("C14", "row-lost-after-cancel", f"result of {name} recorded before cancel is gone")
-        ids = getattr(self, "cancel_pre_ids", None)
+        ids = self.cancel_ids_at_promotion
         if ids is not None:
             for i in ids:
-                if int(i) not in self.scancelled and self.batches.get(int(i), {}).get("state") != "DONE_BEFORE":
+                if int(i) not in self.scancelled:
                     self.viol("C14", "active-batch-not-cancelled", f"batch {i} was active when cancel-jobs was promoted but received no scancel")
         if complete and os.path.exists(os.path.join(self.out, "results.json")):
             try:
@@ -1555,6 +1666,9 @@ class Sim:
             "killed_nodes": sum(1 for b in self.batches.values() if b.get("killed")),
             "scancels": len(self.scancelled),
             "canceled": self.canceled_visible_step is not None,
+            "cancel_unsubmitted": getattr(self, "cancel_unsubmitted", 0),
+            "cancel_active": getattr(self, "cancel_active", 0),
+            "sbatch_after_cancel_cmd": sum(1 for x in self.sbatches if self.cancel_cmd_step is not None and x["step"] > self.cancel_cmd_step),
             "final_classes": {n: v[0] for n, v in (getattr(self, "final", None) or {}).items()},
             "missing": getattr(self, "missing", None),
         }
